@@ -65,7 +65,7 @@ def _spawn(pid: str, spec: dict, workdir: str, idx: int, timeout: float):
     env = dict(os.environ)
     env.setdefault("PYTHONHASHSEED", "0")
     env["PYTHONPATH"] = VERIF + os.pathsep + env.get("PYTHONPATH", "")
-    env["PTA_SCRATCH"] = os.path.join(workdir, f"scratch{idx}")
+    env["PTA_SCRATCH"] = os.path.join(workdir, f"S{idx}")
     os.makedirs(env["PTA_SCRATCH"], exist_ok=True)
     cmd = [sys.executable, "-X", "faulthandler", "-m", "pta_verif.runner", "--run-shard", pid, spec_path, out_path]
     t0 = time.time()
@@ -114,7 +114,11 @@ def main(argv=None) -> int:
         s["tier"] = args.tier
     timeout = getattr(mod, "SHARD_TIMEOUT", {"quick": 600, "thorough": 3600})[args.tier]
     acc = Acc()
-    workdir = tempfile.mkdtemp(prefix=f"pta_{pid}_", dir=boot.scratch_root())
+    # upper-case/digit scratch prefix: path-matching exclusion patterns built from (lower-case)
+    # tree names can then never match the scratch directory itself
+    workdir = os.path.join(boot.scratch_root(), f"PTA-{pid}-{os.getpid()}")
+    shutil.rmtree(workdir, ignore_errors=True)
+    os.makedirs(workdir)
     shard_walls = []
     try:
         if args.inprocess:
@@ -229,7 +233,8 @@ def replay(pid, mod, path) -> int:
     instances = rec.get("instances") or [rec]
     known = load_known()
     rc = 0
-    workdir = tempfile.mkdtemp(prefix=f"pta_{pid}_replay_", dir=boot.scratch_root())
+    workdir = os.path.join(boot.scratch_root(), f"PTA-{pid}-R{os.getpid()}")
+    os.makedirs(workdir, exist_ok=True)
     os.environ["PTA_SCRATCH"] = workdir
     try:
         for inst in instances:
